@@ -46,6 +46,17 @@ def agg_status(insts):
     return "discharged"
 
 
+def _model_scan(reg):
+    out = []
+    for name, f in sorted(reg.models.items()):
+        doc = (getattr(f, "__doc__", None) or "").strip().splitlines()
+        out.append("%s%s" % (name, (": " + doc[0][:140]) if doc else ""))
+    for (cls, attr), f in sorted(reg.methods.items(), key=lambda kv: (str(kv[0][0]), kv[0][1])):
+        doc = (getattr(f, "__doc__", None) or "").strip().splitlines()
+        out.append("%s.%s%s" % (cls, attr, (": " + doc[0][:140]) if doc else ""))
+    return out
+
+
 def main(argv=None):
     ap = argparse.ArgumentParser()
     ap.add_argument("prop")
@@ -254,6 +265,10 @@ def main(argv=None):
         "explanation": info.get("explanation", ""),
         # callees that have neither a contract nor a model were given the contract `true` (any result, any exception, any effect)
         "uncontracted_callees": sorted({u for r in reports for u in (r.get("uncontracted") or [])}),
+        # mechanical scan of the sidecars: postconditions assumed at call sites without being checked in the callee, and the
+        # hand-written model functions that stand for dependencies (each is an assumption, not a proof)
+        "trusted_postconditions": sorted("%s: %s" % (reg.units[k].qual, n) for k in unit_keys for (n, _src) in getattr(reg.units[k].contract, "trusted_ensures", ())),
+        "assumed_dependency_models": _model_scan(reg),
     }
     if level != "proof":
         cov["evaluations"] = max(1, n_obl + sum(e.get("evaluations", 0) for e in extras))
